@@ -179,6 +179,12 @@ class Model():
         asset.id = asset_id if asset_id is not None else self.next_id
         if asset.id in self.asset_ids:
             raise ValueError(f'Asset index {asset_id} already in use.')
+        if hasattr(asset, 'name') and asset.name in self.asset_names \
+                and not allow_duplicate_names:
+            raise ValueError(
+                f'Asset name {asset.name} is a duplicate'
+                ' and we do not allow duplicates.'
+            )
         self.asset_ids.add(asset.id)
 
         self.next_id = max(asset.id + 1, self.next_id)
